@@ -15,6 +15,7 @@ pub fn book_export(opts: &Opts) -> i32 {
     let key = |b: BookMoves| format!("{b:?}");
     ids.insert(key(INITIAL_BOOOK_MOVES), 1);
     nodes.push(vec![]);
+    let mut index_of: Vec<usize> = vec![chess_lookup::verif::book_index(INITIAL_BOOOK_MOVES)];
     queue.push_back((INITIAL_BOOOK_MOVES, 1, Board::standard(), 0));
     walk.push(json!({"node": 1, "depth": 0, "fen": Board::standard().to_string()}));
     let mut edges = 0u64;
@@ -54,6 +55,7 @@ pub fn book_export(opts: &Opts) -> i32 {
             let ck = key(mv.children);
             let fresh = !ids.contains_key(&ck);
             let cid = *ids.entry(ck).or_insert_with(|| {
+                index_of.push(chess_lookup::verif::book_index(mv.children));
                 nodes.push(vec![]);
                 nodes.len()
             });
@@ -90,9 +92,13 @@ pub fn book_export(opts: &Opts) -> i32 {
         }
     }
     let nodes_json: Vec<Value> = nodes.iter().map(|n| json!(n.iter().map(|e| json!([e.0, e.1, e.2])).collect::<Vec<_>>())).collect();
+    // layer S (spec/BookSys.tla): the raw table and, per dense node number, the table index the node's iterator starts at
+    let raw: Vec<u16> = chess_lookup::verif::book_table().to_vec();
+    std::fs::write(opts.str("raw", "bookraw.json"), json!({"table": raw, "root": chess_lookup::verif::book_index(INITIAL_BOOOK_MOVES),
+        "empty": chess_lookup::verif::book_index(chess_lookup::EMPTY_BOOK_MOVES), "index": index_of}).to_string()).unwrap();
     std::fs::write(opts.str("out", "book.json"), json!({"nodes": nodes_json, "depth": 64}).to_string()).unwrap();
     std::fs::write(opts.str("walk", "bookwalk.json"), json!(walk).to_string()).unwrap();
-    out_line("SUMMARY", &json!({"counts": {"nodes": nodes.len(), "edges": edges, "refused": refused}, "distinct": nodes.len(),
+    out_line("SUMMARY", &json!({"counts": {"nodes": nodes.len(), "edges": edges, "refused": refused, "cells": chess_lookup::verif::book_table().len()}, "distinct": nodes.len(),
                                 "nontrivial": edges, "mismatches": 0, "samples": [], "extra": {}}));
     0
 }
